@@ -58,6 +58,8 @@ def pool_oracle(r):
     if r.get("kind") == "latejob":
         if r.get("panic"):
             return ["unbounded mode, Stop while the loop is fetching a due job: " + r["panic"]]
+        if r.get("stop_hung"):
+            return ["Stop() did not return within 3 s while the loop was inside a slow trigger call (Stop waits for the loop)"]
         if r["execs_begun_after_wait"]:
             why.append("unbounded mode: a job execution was in progress after Wait had returned (Stop came while the loop was fetching the job)")
         if not r["wait_returned"]:
@@ -99,7 +101,11 @@ def run_life(binp, seed, n, only=None):
 def run_pool(binp, seed, rounds):
     rc, rows, out = lc.run_json([binp, "poolstop", str(seed), str(rounds)], timeout=600)
     if rc != 0:
-        raise RuntimeError("looph poolstop failed: " + out[-2000:])
+        if "panic:" in out or "fatal error:" in out:
+            m = out[out.find("panic:") if "panic:" in out else out.find("fatal error:"):]
+            rows.append({"kind": "latejob", "round": -1, "panic": "the harness process died: " + m[:500]})
+        else:
+            raise RuntimeError("looph poolstop failed: " + out[-2000:])
     POOL[:] = [r for r in rows if r.get("kind") in ("poolstop", "latejob")]
     return list(POOL)
 
